@@ -13,7 +13,8 @@ Fn(kind, cls, isasync, chain, pre, snap, post, script, out, setst) ==
 
 \* a contract: role, error form, lambda?, truth (indexed arg/state + 1), how the value is delivered, scripts
 Con(role, err, lam, truth, rv, script, escript) ==
-  [role |-> role, err |-> err, lam |-> lam, truth |-> truth, rv |-> rv, script |-> script, escript |-> escript]
+  [role |-> role, err |-> err, lam |-> lam, truth |-> truth, rv |-> rv, script |-> script, escript |-> escript,
+   noold |-> FALSE]
 
 Snp(val, rv, script) == [val |-> val, rv |-> rv, script |-> script]
 
